@@ -11,6 +11,9 @@ use std::collections::HashMap;
 use std::net::SocketAddr;
 use std::slice::Iter;
 
+/// A status response is a single datagram of up to 1400 bytes (more than the default receive size).
+const PACKET_SIZE: usize = 2048;
+
 pub trait QuakeClient {
     type Player;
 
@@ -43,7 +46,7 @@ fn get_data_impl<Client: QuakeClient>(socket: &mut UdpSocket) -> GDResult<Vec<u8
         .concat(),
     )?;
 
-    let data = socket.receive(None)?;
+    let data = socket.receive(Some(PACKET_SIZE))?;
     let mut bufferer = Buffer::<LittleEndian>::new(&data);
 
     if bufferer.read::<u32>()? != u32::MAX {
